@@ -103,6 +103,9 @@ class struct(_composite_base):
 
     def set_field(self, name, rhs):
         lhs = getattr(self, name)
+        if lhs is None and rhs is not None and codec_kind.is_composite(type(rhs)):
+            setattr(self, name, True)
+            lhs = getattr(self, name)
         if isinstance(rhs, base_array):
             if codec_kind.is_composite(rhs._TYPE):
                 if rhs._DYNAMIC:
